@@ -25,35 +25,45 @@ theorem attrBlock4_length (attrs : List Attr) : (attrBlock4 attrs).length = attr
       simp only [attrBlock4, List.flatMap_cons, List.length_append, attrWire4, List.map_cons, List.sum_cons] at ih ⊢
       rw [encRaw_rawOf_length, ih]
 
-/-- the first entry of every frame passes the encoder's "one more entry fits" test -/
-def fitReach (i : Input) (f : Fam) (nh : Nh) (attrs : List Attr) : Bool :=
-  if f == Fam.ipv4 && !extNhNegotiated i then
-    decide (maxFrame i > 23 + (attrWire4 attrs + 7) + (5 + ap4 (addPathTx i f)))
-  else decide (maxFrame i > 23 + attrWire4 attrs + 4 + (5 + nh.bytes.length) + (17 + ap4 (addPathTx i f)))
+/-- wire size of a model-family entry = length of its encoding -/
+theorem encE_length_wire (v6 ap : Bool) (e : Entry) (h : IpEntryOk v6 e) :
+    (encE ap e).length = entryWireSize ap e := by
+  obtain ⟨addr, mask, hn, hl, hm, _, henc⟩ := encE_ip v6 ap e h
+  have hc : ceil8 mask ≤ addr.length := by rw [hl]; exact ceil8_le hm
+  rw [henc]
+  simp only [entryWireSize, hn, encIp, List.length_append, List.length_cons, List.length_take, Nat.min_eq_left hc]
+  cases ap <;> simp <;> omega
 
-def fitUnreach (i : Input) (f : Fam) : Bool :=
-  if f == Fam.ipv4 && !extNhNegotiated i then decide (maxFrame i > 21 + (5 + 2 + ap4 (addPathTx i f)))
-  else decide (maxFrame i > 23 + 4 + 3 + (17 + ap4 (addPathTx i f)))
+/-- `encodable`: every entry fits a frame of its own next to `base` bytes -/
+theorem fitS_of_all (i : Input) (f : Fam) (v6 : Bool) (es : List Entry) (max tail cur base : Nat) (ap : Bool)
+    (hall : es.all (fun e => entryEncodable e && decide (base + entryWireSize ap e ≤ max)) = true)
+    (hes : ∀ e ∈ es, IpEntryOk v6 e) (hcur : cur + tail = base) : FitS max tail ap cur es := by
+  intro e he
+  have := List.all_eq_true.mp hall e he
+  simp only [Bool.and_eq_true, decide_eq_true_eq] at this
+  rw [encE_length_wire v6 ap e (hes e he)]
+  have _ := i; have _ := f
+  omega
 
 def nhIsV4 : Nh → Bool
   | .v4 _ => true
   | _ => false
 
 /-- Domain of the master theorem, announcements: a buildable, encodable Reach of an IPv4/IPv6 unicast/multicast
-    family on a session with 4-octet AS numbers on both sides, whose every frame has room for one entry; the
-    recorded defect "IPv4 next hop inside MP_REACH_NLRI" is excluded. -/
+    family on a session with 4-octet AS numbers on both sides; the recorded defect "IPv4 next hop inside
+    MP_REACH_NLRI" is excluded. -/
 def domReach (i : Input) : Bool :=
   match i.msg with
   | .reach f (some nh) attrs es =>
       buildable i && encodable i && as4Both i.loc i.rem && !es.isEmpty && (isIpFam f).isSome &&
-      fitReach i f nh attrs && ((f == Fam.ipv4 && !extNhNegotiated i) || !nhIsV4 nh)
+      ((f == Fam.ipv4 && !extNhNegotiated i) || !nhIsV4 nh)
   | _ => false
 
 /-- Domain of the master theorem, withdrawals. -/
 def domUnreach (i : Input) : Bool :=
   match i.msg with
   | .unreach f es =>
-      buildable i && encodable i && !es.isEmpty && (isIpFam f).isSome && fitUnreach i f
+      buildable i && encodable i && !es.isEmpty && (isIpFam f).isSome
   | _ => false
 
 /-! ### consequences of `buildable` -/
